@@ -95,6 +95,22 @@ def make_trace(src, out, focus, scopes, keep_all=False, keep_file=b''):
 BUILTINS = builtins_list()
 
 
+def ident_occurrences(code):
+    """identifier occurrences of a source in order, by the token list of the tree under test: names, and the names inside
+    labels (colons and blanks stripped) - None if it does not lex"""
+    try:
+        L = lex_only(code)
+    except Exception:
+        return None
+    out = []
+    for t in L.tokens:
+        if isinstance(t, lexer.TokName):
+            out.append(bytes(t.code))
+        elif isinstance(t, lexer.TokLabel):
+            out.append(bytes(t.code).strip(b':').strip(b' \t'))
+    return out
+
+
 def names_in(src):
     try:
         L = lex_only(src)
